@@ -666,6 +666,12 @@ func (s *ScopedKeyManager) DeriveFromKeyPathCache(
 	s.mtx.Lock()
 	defer s.mtx.Unlock()
 
+	// Private keys, cached or not, must not be handed out while the
+	// manager is locked.
+	if s.rootManager.IsLocked() {
+		return nil, managerError(ErrLocked, errLocked, nil)
+	}
+
 	// First, try to look up the key itself in the proper cache, if the key
 	// is here, then we don't need to do anything further.
 	privKeyVal, err := s.privKeyCache.Get(kp)
